@@ -68,7 +68,7 @@ def density_case(ctx, rng, idx):
     cname = CLASSES[idx % len(CLASSES)]
     n_par, ref = D.ERROR_MODELS[cname]
     model, full, free, wrapper = _make(rng, cname)
-    n = int(rng.choice([1, 2, 3, 5, 8, 13, 21, 40]))
+    n = int(rng.choice([1, 2, 3, 5, 8, 13, 21, 40, 40, 400, 2000]))
     width = int(rng.integers(0, 6))
     scale = float(np.exp(rng.uniform(np.log(0.1), np.log(50))))
     ybar = scale * rng.uniform(0.2, 3.0, size=n)
@@ -98,7 +98,8 @@ def density_case(ctx, rng, idx):
     nontrivial = n >= 2 and np.ptp(ybar) > 0
     feats = {'class': cname, 'wrapper': wrapper, 'free': free.tolist(),
              'n': n, 'width': width, 'form': form}
-    ctx.case((cname, wrapper, tuple(free), min(n, 5), width, form),
+    ctx.case((cname, wrapper, tuple(free), min(n, 5) if n < 100 else n, width,
+              form),
              nontrivial, sample=dict(
                  feats, parameters=p_free, model_output=ybar[:4],
                  observations=y[:4]))
